@@ -139,6 +139,16 @@ pub fn lookup_variable(
         return None;
     };
 
+    // A pre-evaluated path (`a.x` captured by a function) belongs to the `a` that was in scope
+    // where it was captured. A nearer scope that binds `a` again shadows it, path included.
+    if !accessors.is_empty()
+        && scopes[binding_scope_idx + 1..]
+            .iter()
+            .any(|s| s.bindings.contains_key(name))
+    {
+        return None;
+    }
+
     // Check for narrowings from current scope back to binding scope
     // (innermost narrowing takes precedence)
     for scope in scopes[binding_scope_idx..].iter().rev() {
